@@ -732,12 +732,12 @@ func generate(seed uint64, n int) []barrage {
 		}
 		return k
 	}
-	slice("field", nil, fpool, share(27), 17)
+	slice("field", nil, fpool, share(24), 17)
 	slice("trunc", nil, tpool, share(13), 18)
 	slice("tcpopt", ocore, opool, share(12), 18)
 	slice("icmp", nil, ipool, share(6), 17)
 	slice("state", nil, spool, share(10), 17)
-	nfrag := share(20)
+	nfrag := share(18)
 
 	// ---- fragments
 	total := fragSeqCount()
@@ -810,7 +810,7 @@ func generate(seed uint64, n int) []barrage {
 
 	// ---- soak: long mixed barrages
 	all := [][]item{fpool, tpool, opool, ipool, spool}
-	for i := 0; i < share(4); i++ {
+	for i := 0; i < share(9); i++ {
 		mode := modeOf()
 		var fs []frame
 		for j := 0; j < 150; j++ {
